@@ -698,9 +698,12 @@ class HttpProxyPlugin(HttpProtocolHandlerPlugin):
         subject = ''
         for key in keys:
             if upstream_subject.get(keys[key], None):
+                # '/' separates fields and '+' joins multi-valued ones in
+                # openssl's -subj syntax; escape them within a value.
                 subject += '/{0}={1}'.format(
                     key,
-                    upstream_subject.get(keys[key]),
+                    upstream_subject.get(keys[key]).replace('\\', '\\\\')
+                    .replace('/', '\\/').replace('+', '\\+'),
                 )
         alt_subj_names = [text_(self.request.host)]
         validity_in_days = 365 * 2
